@@ -1,6 +1,8 @@
 """C11 -- legalization does not move an already legal single-row placement.
-Proof: coq/Properties_C11.v (row fixpoint, zero cost at the own position, order key preserved for
-ordering width in [0,1]).  Tie: Circuit::legalize applied twice on circuits whose movable cells are all
+Proof: coq/Properties_C11.v: whole-circuit theorems for the closed models of the legalizer with the modelled computeCellOrder (rational and
+binary32): a legal placement on admitted rows (polarity_admits) of a row-high design is not moved, for parameters in the box orderingWidth in
+[0,1] (binary32: also |orderingY| <= 2, |orderingHeight| <= 4, coordinates <= 2^20); refuted outside the box (F10, F23).  Ingredients: row
+fixpoint, zero cost at the own position, order key preserved for ordering width in [0,1].  Tie: Circuit::legalize applied twice on circuits whose movable cells are all
 row-high (obstructions, split rows, polarities, efforts 1-9, ordering parameters over the accepted box,
 scale up to 2^16): the second result must equal the first; both runs are compared exactly with the
 extracted legalizer model fed with the implementation's cell order.
@@ -232,7 +234,9 @@ def run(ctx):
                 "distribution": lc.distribution(run), "known_F10_matches": known,
                 "samples": [run.lines[0], run.lines[len(run.lines) // 2]] + ores["lines"][-1:] + seqs[0]["cases"][:1],
                 "model_vs_impl_differences": len(mism), "impl_outputs_violating_statement": len(ofail) + len(seq_moved)})
-    return ctx.finish(LEVEL, cov, ["whole-circuit idempotence is validated per case, its ingredients are proved (see Properties_C11.v)",
+    return ctx.finish(LEVEL, cov, ["whole-circuit idempotence is PROVED for the closed models (c11_legalize_real_order_fixpoint / c11_legalize_float_order_fixpoint, _idempotent, _twice) on the parameter box and under polarity_admits, refuted outside the box (F10, F23); it is also validated per case",
+                                   "legalize steps of the sequence stream whose state is outside the hypotheses (parameters outside the box, a polarised cell on a forbidden row) are not judged; the main stream whitelists F10 only, F23 is replayed on its corpus witness and not searched for",
+                                   "the binary32 model is tied bit for bit on 100 cases per run (400 thorough)",
                                    "model tied to the code by exact comparison on the cases of this run"])
 
 
